@@ -398,7 +398,12 @@ def _vmap_refusal(e):
     """torch.vmap refusing an in-place / data-dependent operation inside one of pypose's autograd Functions: loud, documented as
     partially supported - not a wrong Jacobian.  Anything else a vectorised route raises is a failure like on the other routes."""
     m = str(e).lower()
-    return isinstance(e, RuntimeError) and any(k in m for k in ("vmap", "batching rule", "batched", "functorch", "inplace"))
+    if isinstance(e, RuntimeError) and any(k in m for k in ("vmap", "batching rule", "batched", "functorch", "inplace")):
+        return True
+    # ... or raised from inside torch's functorch machinery, whatever the wording
+    import traceback
+    tb = traceback.extract_tb(e.__traceback__)
+    return isinstance(e, RuntimeError) and bool(tb) and ("_functorch" in tb[-1].filename or "functorch" in tb[-1].filename)
 
 
 def check_program(case, rec, tol64=1e-6, must_work=False):
